@@ -36,7 +36,8 @@ func corpusFiles() [][]byte {
 var soupWords = []string{"mov", "add", "dat", "jmp", "spl", "djn", "equ", "org", "end", "for", "rof", "x", "y", "i", "loop",
 	"CORESIZE", "mov.i", "add.ab", "seq.x", "nop", "a1", "_b", "start", "imp", "1", "2", "0", "10", "007", "99999999999",
 	"+", "-", "*", "/", "%", "(", ")", ",", ":", "$", "#", "@", "{", "}", "<", ">", "<=", ">=", "==", "&&", "||", "=", "&", "|", "!",
-	";c", ";assert", ";assert 1", ";assert x", ";name n", ";strategy s", "\n", "\n", "\n", "\r\n", " ", "\t", ".", "\x00", "\x1a", "\xff", "\xc3\x28", "é", "İ"}
+	";c", ";assert", ";assert 1", ";assert x", ";name n", ";strategy s", "\n", "\n", "\n", "\r\n", " ", "\t", ".", "\x00", "\x1a", "\xff", "\xc3\x28", "é", "İ",
+	"٣", "٤٥", "１２", "߃", "०", "x٣", "٣x", "\u00a0", "\u2003", "\u0085", "\u3000", "ǅ", "λ", "K", "ſ", "mov.İ", "dat ٣", "１ equ ２"}
 
 func soupText(rng *rand.Rand) []byte {
 	var sb strings.Builder
@@ -116,6 +117,34 @@ func genSoup(out *bufio.Writer, rng *rand.Rand, count int) int {
 		for _, cfg := range []gmars.SimulatorConfig{gmars.ConfigNOP94, gmars.ConfigKOTH88, gmars.ConfigICWS88, gmars.ConfigNopNano} {
 			emit(cfg, f)
 		}
+	}
+	// big inputs: many lines after a FOR block, long comment blocks (tie skipped by the driver above
+	// its size limit, the C05 / C06 predicates are still decided)
+	for i := 0; i < 2+count/6000; i++ {
+		var sb strings.Builder
+		lines := 60000 + rng.Intn(40000)
+		sb.WriteString("i for 2\n")
+		switch i % 3 {
+		case 0:
+			for k := 0; k < lines; k++ {
+				sb.WriteString("; c\n")
+			}
+			sb.WriteString("rof\nmov 0, 1\n")
+		case 1:
+			sb.WriteString("dat i\nrof\n")
+			for k := 0; k < lines; k++ {
+				sb.WriteString("; c\n")
+			}
+			sb.WriteString("mov 0, 1\n")
+		default:
+			sb.WriteString("dat i\nrof\n")
+			for k := 0; k < lines/4; k++ {
+				sb.WriteString("x" + fmt.Sprint(k) + " equ 1 + 2 * 3 ; c\n")
+			}
+			sb.WriteString("mov 0, 1\n")
+		}
+		cfg := gmars.ConfigNOP94
+		emit(cfg, []byte(sb.String()))
 	}
 	for n < count {
 		cfg := asmConfig(rng, rng.Intn(3) == 0, false)
